@@ -127,9 +127,9 @@ def run(R):
             if okv:
                 vals = common.assigned_values(driver.node, vals_[0].id)
                 srcs = sorted(set(q.src(v) if k == "expr" else k for k, v in vals))
-                okv = srcs == sorted(["%s.value" % h.name, "None"])
+                okv = srcs == sorted(["%s.value" % h.name, "None"]) or srcs == ["getattr(%s, 'value', None)" % h.name]
             elif len(vals_) == 1:
-                okv = q.src(vals_[0]) == "%s.value" % h.name
+                okv = q.src(vals_[0]) in ("%s.value" % h.name, "getattr(%s, 'value', None)" % h.name)
             R.check(okv, "C01.FLOW-RESULT", driver.qualname + ":return-value", R.site(driver, h), "`return x` completes the task with x (StopIteration.value)",
                     "the task's value is not StopIteration.value")
         h = arms.get("GeneratorExit")
